@@ -78,7 +78,11 @@ func H07_envcheck() {
 		venv.Put("yy", val.Num(2))
 		conforms = false
 	case 9: // the first position conforms, the second holds a value of another catalogue type
-		other := hx.Catalogue((kx + 1 + sv.Choice("other", n-1)) % n)
+		nOther := n - 1
+		if nOther > 6 {
+			nOther = 6 // six neighbouring catalogue types are enough: what matters is that the second position differs
+		}
+		other := hx.Catalogue((kx + 1 + sv.Choice("other", nOther)) % n)
 		ot := types.Obj([]types.Field{{Name: "from", Val: hx.Permuted(tx, "perm")}, {Name: "to", Val: other}})
 		xval = val.Obj(ot.Obj())
 		xval.Obj().V[0] = hx.AnyVal(tx, "x.from")
